@@ -39,6 +39,10 @@ GARBAGE = [
 ]
 
 
+HTTP_FAULTS = [{'kind': 'http_status', 'code': c} for c in (400, 413, 500, 503)] \
+    + [{'kind': 'http_disconnect'}] \
+    + [{'kind': 'http_incomplete', 'after': a} for a in (0, 7, 200)]
+
 SYMBOL_ZOO = (
     'Kosten 5\\% und A\\&B, \\$3, \\#4, a\\_b, x\\,y, \\{c\\} z\\\\\n'
     '\\"a \\\'e \\`o \\^u \\~n \\ss{} \\o{} \\c c \\LaTeX{} \\TeX\\ und \\dots{} so.\n'
@@ -411,6 +415,7 @@ def run(seed, tier, budget_s):
 
     # ---- stage 2: single faults on the k-th invocation
     complete_sweeps = 0
+    http_fault_cases = 0
     sweep_sizes = []
     plans = []
     for bi, (b, subs) in enumerate(usable):
@@ -460,6 +465,14 @@ def run(seed, tier, budget_s):
                 or (f['kind'] == 'delete_field' and len(f['path']) <= 3))]
             for f in f2:
                 plans.append(with_fault(b, k2, f, nxt()))
+        if b.get('transport') == 'my' and b['mode'] != 'server':
+            # the local LT server answers the availability probe, but the
+            # request itself is answered badly at the HTTP level (every time
+            # it is tried): at each invocation of the run
+            for (kk, _o, tt) in cand:
+                for f in HTTP_FAULTS:
+                    plans.append(with_fault(b, kk, f, nxt()))
+                    http_fault_cases += 1
         if len(batch.samples) < 3:
             batch.samples.append({
                 'base_argv': b['argv'], 'invocation_k': k,
@@ -665,6 +678,7 @@ def run(seed, tier, budget_s):
              'complete_single_fault_sweeps': complete_sweeps,
              'range_sweep_cases': sweep_ranges,
              'symbol_offset_cases': symbol_cases,
+             'http_level_fault_cases': http_fault_cases,
              'part_boundary_offset_cases': boundary_cases,
              'cross_flow_range_cases': cross_flow,
              'nested_multi_line_pairs': nested_pairs,
